@@ -166,8 +166,12 @@ func C03(c *ev.Ctx) {
 		outs, r, err := gl.Run(dir, l, gl.RunOpts{Mode: "conc", Fuel: 400, Workers: 14, Timeout: time.Duration(c.Pick(6, 30)) * time.Minute, HeapMB: 16000, Live: p.Deterministic})
 		c.AddTLC(r)
 		totalStates += r.Distinct
+		if dbg := os.Getenv("VERIF_DEBUG_DIR"); dbg != "" {
+			_ = os.WriteFile(filepath.Join(dbg, "c03-"+p.Key+".tlc.txt"), []byte(r.Out), 0644)
+			_ = os.WriteFile(filepath.Join(dbg, "c03-"+p.Key+".v"), []byte(text), 0644)
+		}
 		_ = os.RemoveAll(dir)
-		liveViolated := strings.Contains(r.Out, "Temporal properties were violated") || strings.Contains(r.Out, "is violated") && strings.Contains(r.Out, "Terminates")
+		liveViolated := strings.Contains(r.Out, "Temporal properties were violated") || strings.Contains(r.Out, "Temporal property Terminates was violated")
 		if err != nil || r.TimedOut || (r.TLCError && !liveViolated) {
 			c.Inconclusive("TLC did not complete on %s (%d states): %s", p.Key, r.Distinct, tlc.Tail(r.Out, 12))
 			outcomesEv[p.Key] = "inconclusive"
